@@ -5,7 +5,7 @@ import vlib
 PROP = "C19"
 PROPS_FILES = ["Nic/Props/C19.lean", "Nic/Props/TieMisc.lean"]
 # Go functions translated from /repo on every run (tools/gofn) and proved equal to the model in the Tie file above
-TIE_FUNCS = ['internal/k8s/utils.go:isChallengeIngress', 'internal/k8s/appprotectdos/app_protect_dos_configuration.go:getNsName']
+TIE_FUNCS = ['internal/k8s/utils.go:isChallengeIngress', 'internal/k8s/appprotectdos/app_protect_dos_configuration.go:getNsName', 'internal/k8s/appprotect_waf.go:isMatchingResourceRef']
 HARNESS = "vh-ap"
 PARALLEL = 8
 RULE = ("histories (3..12 ops) of add/update/delete of APUserSig (tags from {t1,t2,none}, creation times from {1,2} so ties occur, with and "
